@@ -2,9 +2,11 @@ package main
 
 import (
 	"bytes"
+	"go/token"
 	"encoding/hex"
 	"fmt"
 	"go/types"
+	"math"
 	"math/big"
 	"regexp"
 	"sort"
@@ -65,6 +67,13 @@ func (e *Exec) intrinsic(th *Thread, fn *ssa.Function, args []Value) (Value, boo
 		return nil, true
 	}
 	name := fnName(fn)
+	if strings.HasPrefix(name, "(*math/big.Int).") && !e.intMode && token.IsExported(fn.Name()) {
+		// constants: the real math/big, exact at any size
+		if v, ok := e.nativeBig(fn, args); ok {
+			e.stubs["native:"+name]++
+			return v, true
+		}
+	}
 	// harness redirects take precedence over the built-in models
 	if r, ok := e.redirects[name]; ok {
 		e.stubs["redirect:"+name]++
@@ -75,6 +84,17 @@ func (e *Exec) intrinsic(th *Thread, fn *ssa.Function, args []Value) (Value, boo
 		return h(e, th, fn, args), true
 	}
 	pp := pkgPathOf(fn)
+	if pp == "math/big" && fn.Signature.Recv() != nil && strings.Contains(fn.Signature.Recv().Type().String(), "math/big.Int") && token.IsExported(fn.Name()) {
+		// a big.Int method without a symbolic model: the real method on concrete operands
+		if e.intMode {
+			panic(pathAbort{"error", "math/big method " + fn.Name() + " is not modelled in Int mode"})
+		}
+		if v, ok := e.nativeBig(fn, args); ok {
+			e.stubs["native:"+name]++
+			return v, true
+		}
+		panic(pathAbort{"error", "math/big method " + fn.Name() + " has no symbolic model and its operands are not all concrete"})
+	}
 	if pp == e.P.modPath+"/internal/vnd" {
 		return e.vndCall(th, fn, args), true
 	}
@@ -1020,6 +1040,43 @@ func init() {
 		}
 		return strconv.Itoa(int(t.Int64()))
 	}
+	// uint256 decimal rendering (used for log fields and span attributes only): the
+	// real code formats word by word through strconv, one fork per digit
+	u256dec := func(e *Exec, th *Thread, fn *ssa.Function, a []Value) Value {
+		p, _ := a[0].(*Value)
+		if p != nil {
+			if arr, ok := (*p).(ArrayV); ok && len(arr) == 4 {
+				allc := true
+				v := new(big.Int)
+				for i := 3; i >= 0; i-- {
+					t, ok := arr[i].(*Term)
+					if !ok || !t.IsConst() {
+						allc = false
+						break
+					}
+					v.Lsh(v, 64)
+					v.Or(v, new(big.Int).SetUint64(t.Uint64()))
+				}
+				if allc {
+					return v.String()
+				}
+				if t, ok := arr[0].(*Term); ok {
+					return &SymStr{parts: []interface{}{"u256:", symPart{verb: "%d", t: t, uns: true}}}
+				}
+			}
+		}
+		return "<uint256>"
+	}
+	I["(*github.com/holiman/uint256.Int).Dec"] = u256dec
+	I["(*github.com/holiman/uint256.Int).PrettyDec"] = u256dec
+	I["(*github.com/holiman/uint256.Int).String"] = u256dec
+	I["strconv.FormatInt"] = func(e *Exec, th *Thread, fn *ssa.Function, a []Value) Value {
+		t := a[0].(*Term)
+		if !t.IsConst() {
+			return &SymStr{parts: []interface{}{symPart{verb: "%d", t: t}}}
+		}
+		return strconv.FormatInt(t.Int64(), e.concreteInt(a[1], "base"))
+	}
 	I["strconv.FormatUint"] = func(e *Exec, th *Thread, fn *ssa.Function, a []Value) Value {
 		t := a[0].(*Term)
 		if !t.IsConst() {
@@ -1096,6 +1153,16 @@ func init() {
 			panic(pathAbort{"error", "bytes.Contains on symbolic content"})
 		}
 		return e.ctx.Bool(bytes.Contains(s, o))
+	}
+	I["math.Abs"] = func(e *Exec, th *Thread, fn *ssa.Function, a []Value) Value {
+		t := a[0].(*Term)
+		if t.op == "fpconst" {
+			return e.fpConst(math.Abs(f64frombits(t.c.Uint64())))
+		}
+		if t.sort.K == SReal {
+			return e.rAbs(t)
+		}
+		return e.ctx.mk("fp.abs", FPSort, t)
 	}
 	I["encoding/hex.DecodeString"] = func(e *Exec, th *Thread, fn *ssa.Function, a []Value) Value {
 		b, err := hex.DecodeString(e.goString(a[0], "hex.DecodeString"))
